@@ -67,8 +67,19 @@ static std::string runCase(const HCase &c, Hist20 *h = nullptr) {
             if (st.op == H_PUSH) SCPI_ErrorPush(&I.ctx, (int16_t) e.code);
             else {
                 e.text = uniqueText(si, st.len);
-                XBuf tb(e.text.size() + 1); memcpy(tb.p, e.text.c_str(), e.text.size() + 1);
-                SCPI_ErrorPushEx(&I.ctx, (int16_t) e.code, tb.p, 0);
+                if (!e.text.empty() && si % 3 == 2) {
+                    // explicit length shorter than what lies behind the pointer: the characters after the text are not part of it
+                    std::string longer = e.text + "Zz9";
+                    XBuf tb(longer.size()); memcpy(tb.p, longer.data(), longer.size());
+                    SCPI_ErrorPushEx(&I.ctx, (int16_t) e.code, tb.p, e.text.size());
+                } else if (!e.text.empty() && (si & 1)) {
+                    // explicit length: the text need not be terminated - an exact-size buffer without NUL
+                    XBuf tb(e.text.size()); memcpy(tb.p, e.text.data(), e.text.size());
+                    SCPI_ErrorPushEx(&I.ctx, (int16_t) e.code, tb.p, e.text.size());
+                } else {
+                    XBuf tb(e.text.size() + 1); memcpy(tb.p, e.text.c_str(), e.text.size() + 1);
+                    SCPI_ErrorPushEx(&I.ctx, (int16_t) e.code, tb.p, 0);
+                }
                 e.mayHaveText = !e.text.empty();
                 e.mustHaveText = model.empty() && !e.text.empty() && e.text.size() + 1 <= c.heap && e.text.size() <= 255;
                 if (h && e.mayHaveText && wrBefore + e.text.size() + 1 > c.heap && e.text.size() + 1 <= c.heap) h->wrapStored = true;   // would wrap if stored
